@@ -25,7 +25,7 @@ Lemma mvall_lvok okfn D L lv : mvall okfn D L lv -> lvok okfn lv.
 Proof.
   induction lv as [v|l IH|l IH|loc|sc name IH|f args IH] using lv_ind; cbn [mvall]; intros [H|H]; try (eapply lvall_lvok; eauto; fail); try contradiction.
   - apply mvall_all in H. apply lvok_list. rewrite Forall_forall in *. intros x Hx. apply IH; auto.
-  - destruct H as (v & -> & _). exact I.
+  - cbn [lvok]. apply IH, H.
 Qed.
 Lemma msall_lsok okfn D L st : msall ea0 okfn D L st -> lsok okfn st.
 Proof.
@@ -213,7 +213,7 @@ Section EvalSwap.
     intros Hd. assert (Hin : In (bD n0 d, bL d) bdsDL) by (unfold bdsDL; apply in_map_iff; exists d; auto).
     induction lv as [v|l IH|l IH|loc|sc name IH|f args IH] using lv_ind; cbn [mvall]; intros [H|H]; try (eapply mty_local; eauto; fail); try contradiction.
     - cbn [mty]. right. apply mvall_all in H. apply mty_all. rewrite Forall_forall in *. intros x Hx. apply IH; auto.
-    - destruct H as (v & -> & Hv). cbn [mty]. right. left. exists (bD n0 d), (bL d). split; [exact Hin|]. cbn [lvall]. eapply vall_impl; [|exact Hv]. intros i [].
+    - cbn [mty]. right. apply IH, H.
   Qed.
   Lemma stmts_mty K l : stmts_typed okfn g0 K bds l -> Forall (lsmty okfn bdsDL) l.
   Proof.
